@@ -560,6 +560,17 @@ func (a *absint) eval1(v ssa.Value) ival {
 	case *ssa.UnOp:
 		if x.Op == token.MUL {
 			if fa, ok := x.X.(*ssa.FieldAddr); ok {
+				// store-to-load forwarding inside one block: `t.n++; n := t.n` reads what was
+				// just written (no call between them that may write the field)
+				if sv := a.forwardedStore(x, fa); sv != nil && isIntType(x.Type()) {
+					r := a.eval(sv)
+					if inv, ok := a.fieldInv[fieldOf(fa)]; ok {
+						if m := r.meet(inv); !m.empty() {
+							return m
+						}
+					}
+					return r
+				}
 				if inv, ok := a.fieldInv[fieldOf(fa)]; ok {
 					return inv
 				}
@@ -1623,6 +1634,29 @@ func (a *absint) paramRange(p *ssa.Parameter) ival {
 	a.paramMemo[p] = nil
 	fn := p.Parent()
 	tr := typeRange(p.Type())
+	if isBoundWrapper(fn) {
+		// the wrapper behind a method value x.m: called wherever that function value is
+		// called; the call graph (VTA, sound for module code) lists those dynamic call sites
+		node := a.w.CG.Nodes[fn]
+		if node == nil || len(node.In) == 0 {
+			return tr
+		}
+		idx := paramIndex(p)
+		r := ival{1, 0}
+		for _, e := range node.In {
+			if e.Site == nil || e.Caller.Func == nil || !a.w.IsMod[e.Caller.Func] || e.Site.Common().IsInvoke() {
+				return tr
+			}
+			args := e.Site.Common().Args
+			if idx < 0 || idx >= len(args) {
+				return tr
+			}
+			r = r.join(a.rangeAt(args[idx], e.Site, 2))
+		}
+		r = r.meet(tr)
+		a.paramMemo[p] = &r
+		return r
+	}
 	if fn.Object() == nil || fn.Object().Exported() || fn.Parent() != nil {
 		return tr
 	}
@@ -2229,4 +2263,37 @@ func (a *absint) callLen(call *ssa.Call, idx int) (ival, bool) {
 		return ival{}, false
 	}
 	return r.meet(ival{0, inf}), true
+}
+
+// forwardedStore: the value of the last store to the same field of the same object that
+// precedes the load in its block, when nothing in between can write that field.
+func (a *absint) forwardedStore(ld *ssa.UnOp, fa *ssa.FieldAddr) ssa.Value {
+	b := ld.Block()
+	if b == nil {
+		return nil
+	}
+	f := fieldOf(fa)
+	idx := indexIn(ld)
+	for i := idx - 1; i >= 0; i-- {
+		switch x := b.Instrs[i].(type) {
+		case *ssa.Store:
+			fa2, ok := x.Addr.(*ssa.FieldAddr)
+			if !ok || fieldOf(fa2) != f {
+				continue
+			}
+			if fa2.X == fa.X || a.w.sameKey(fa2.X, fa.X) {
+				return x.Val
+			}
+			return nil // a store to the same field of possibly another object
+		case ssa.CallInstruction:
+			if cal := x.Common().StaticCallee(); cal != nil && a.w.IsMod[cal] && !a.w.storeSet(cal)[f] {
+				continue
+			}
+			if cal := x.Common().StaticCallee(); cal != nil && !a.w.IsMod[cal] {
+				continue // library code does not know our struct fields
+			}
+			return nil
+		}
+	}
+	return nil
 }
